@@ -123,18 +123,25 @@ def _exc_args(ctx, rep):
     """The caller's exception is built from exactly the caller's extra arguments."""
     enf = impl.Enf()
     enf.set_rules({'deny': '!', 'allow': '@'})
+    enf.e.register_default(policy.RuleDefault('deny', '!'))
+    enf.e.register_default(policy.RuleDefault('allow', '@'))
     for args, kw in [((), {}), (('a',), {}), (('a', 2, None), {'x': 1}), ((), {'x': [1, 2], 'y': {'z': 1}})]:
-        try:
-            enf.e.enforce('deny', {}, {}, True, impl.CustomExc, *args, **kw)
-            rep.fail('excargs:noraise', 'do_raise with a custom class did not raise', {'args': args, 'kw': kw})
-        except impl.CustomExc as e:
-            if e.args != args or e.kw != kw:
-                rep.fail('excargs:%r' % (args,), 'custom exception built from %r/%r, caller passed %r/%r'
-                         % (e.args, e.kw, args, kw), {'args': args, 'kw': kw})
-        r = enf.e.enforce('allow', {}, {}, True, impl.CustomExc, *args, **kw)
-        if not r:
-            rep.fail('excargs:allow', 'allowed request returned falsy under do_raise', {})
-        rep.case(key='excargs%r%r' % (args, kw), nontrivial=True)
+        for fname in ('enforce', 'authorize'):
+            fn = getattr(enf.e, fname)
+            try:
+                fn('deny', {}, {}, True, impl.CustomExc, *args, **kw)
+                rep.fail('excargs:noraise:' + fname, '%s with do_raise and a custom class did not raise' % fname, {'args': args, 'kw': kw})
+            except impl.CustomExc as e:
+                if e.args != args or e.kw != kw:
+                    rep.fail('excargs:%s:%r' % (fname, args), '%s: custom exception built from %r/%r, caller passed %r/%r'
+                             % (fname, e.args, e.kw, args, kw), {'args': args, 'kw': kw, 'call': fname})
+            except Exception as e:     # noqa
+                rep.fail('excargs:%s:%r' % (fname, args), '%s with a custom class raised %s instead' % (fname, type(e).__name__),
+                         {'args': args, 'kw': kw, 'call': fname})
+            r = fn('allow', {}, {}, True, impl.CustomExc, *args, **kw)
+            if not r:
+                rep.fail('excargs:allow:' + fname, 'allowed request returned falsy under do_raise (%s)' % fname, {})
+            rep.case(key='excargs%s%r%r' % (fname, args, kw), nontrivial=True)
 
 
 def _mutation(ctx, rep):
@@ -155,6 +162,23 @@ def _mutation(ctx, rep):
                          '%r -> %r' % (c0, c1), {'creds': repr(creds), 'target': repr(target)})
             rep.stat('mutation_probe')
             rep.case(key='mut%r%r' % (sorted(c0), sorted(t0)), nontrivial=True)
+    # targets and credentials the debug dump (mask + JSON, sorted keys) may choke on: the dump is diagnostics only, so the
+    # outcome with debug logging on must be the outcome with it off
+    hostile = [{'k': 'v', 1: 'int key'}, {'k': 'v', ('t', 1): 'tuple key'}, {'k': 'v', 's': {1, 2}}, {'k': 'v', 'b': b'bytes'},
+               {'k': 'w', None: 0, 2.5: 1}, {'k': float('nan')}]
+    for target in hostile:
+        for creds in ({'roles': ['r0']}, {'roles': [], 3: 'x', 'y': 1}, {'roles': ['r1'], 'u': {1: 2, 'a': 3}}):
+            for dr in (False, True):
+                logging.disable(logging.CRITICAL)
+                off = impl.outcome(lambda: enf.e.enforce('p', dict(target), dict(creds), do_raise=dr))
+                logging.disable(logging.NOTSET)
+                on = impl.outcome(lambda: enf.e.enforce('p', dict(target), dict(creds), do_raise=dr))
+                if on != off:
+                    rep.fail('debugdump:%r|%r|%s' % (sorted(map(repr, target)), sorted(map(repr, creds)), dr),
+                             'enforce(p, target=%r, creds=%r, do_raise=%s) gives %s with debug logging off and %s with it on'
+                             % (target, creds, dr, off, on), {'target': repr(target), 'creds': repr(creds), 'do_raise': dr})
+                rep.stat('hostile_dump_probe')
+                rep.case(key='dump%r%r%s' % (sorted(map(repr, target)), sorted(map(repr, creds)), dr), nontrivial=True)
 
 
 def replay(ctx, rep, data):
